@@ -30,6 +30,19 @@ pub(crate) struct Instant {
 
 impl Instant {
     pub fn now() -> Self {
+        // Verification hook: read tokio's clock (identical to the real clock unless a test
+        // runtime has paused it) so that node ageing, token rotation and peer expiry follow the
+        // same virtual time as the tokio timers.
+        #[cfg(btdht_verif)]
+        if true {
+            return Self {
+                std_instant: tokio::time::Instant::now()
+                    .into_std()
+                    .checked_add(OFFSET)
+                    .unwrap(),
+            };
+        }
+
         Self {
             std_instant: StdInstant::now().checked_add(OFFSET).unwrap(),
         }
